@@ -10,7 +10,11 @@ LOOP = "loop-straddling templates: for-loop bodies whose last fragment starts an
 FIXT = "every dialect fixture <= 250 B (thorough 1000 B) fixed in its own dialect"
 GLUE = "operator / sign / comment-adjacent input list (fixfam.GLUE, 60 statements)"
 GAPS = "every dialect fixture <= 80 B (thorough 150 B) with ' -- c<newline>' inserted after EVERY token in turn, fixed in its own dialect (8 543 inputs)"
-ROPT = "every assignment of <= 2 enumerated options of every rule x that rule's YAML strings + operator list, that rule alone"
+LSWEEP = (
+    "layout option sweep: every indentation option and every spacing / line_position option of 10 layout types moved away from its default ONE "
+    "at a time, each to every other documented value (39 configurations) x (G(1) + operator list) x layout"
+)
+ROPT ="every assignment of <= 2 enumerated options of every rule x that rule's YAML strings + operator list, that rule alone"
 LT05P = (
     "LT05 product (every ordered triple of 5 statements with inline / block / multi-line block trailing comments and long identifiers x "
     "ignore_comment_lines x ignore_comment_clauses x max_line_length {30, 50})"
@@ -36,14 +40,14 @@ EXTRA = {
     "shapes) x {jinja, python, 9 placeholder styles} x {default, max_line_length 30}.",
     "C11": SPAN + "; 12 line-break-like characters (VT, FF, FS, GS, RS, NEL, LS, PS, CR, CRLF, NBSP, BOM) inside a string literal, a comment and between tokens; "
     "the reference text is the INPUT with only CRLF/CR -> LF.",
-    "C12": FIXT + "; " + GLUE + "; " + GAPS + "; " + LPROD + " x all; " + ROPT + ".",
-    "C13": FIXT + "; " + GLUE + "; " + GAPS + "; " + LPROD + " x all; " + ROPT + "; Jinja: every span template of <= 3 items inside an identifier / quoted literal x 4 statement "
+    "C12": FIXT + "; " + GLUE + "; " + GAPS + "; " + LPROD + " x all; " + ROPT + "; " + LSWEEP + ".",
+    "C13": FIXT + "; " + GLUE + "; " + GAPS + "; " + LPROD + " x all; " + ROPT + "; " + LSWEEP + "; Jinja: every span template of <= 3 items inside an identifier / quoted literal x 4 statement "
     "shapes, all rules.",
-    "C14": FIXT + " under the layout group; " + GLUE + "; " + GAPS + "; " + LPROD + " x layout; " + LT05P + " x layout.",
+    "C14": FIXT + " under the layout group; " + GLUE + "; " + GAPS + "; " + LPROD + " x layout; " + LT05P + " x layout; " + LSWEEP + ".",
     "C15": "statements with quoted / schema-qualified type names and comments inside a data type.",
     "C16": GLUE + ".",
     "C17": FIXT + "; " + GLUE + "; layout option product: max_line_length {6, 10, 20, 45} x implicit_indents {forbid, allow, require} x (G(1) + operator list, "
-    "each also with long identifiers everywhere and with long identifiers only after FROM) x {layout, all}; " + ROPT + "; " + LT05P + " x {LT05, all}.",
+    "each also with long identifiers everywhere and with long identifiers only after FROM) x {layout, all}; " + ROPT + "; " + LSWEEP + "; " + LT05P + " x {LT05, all}.",
     "C19": "nested-configuration scenarios (file in sub/ or sub/deep/ with its own .sqlfluff: rule option, exclude_rules, templater context) and templated files, "
     "stdin given --stdin-filename sub/f.sql; every inline directive also in every accepted spelling ('-- sqlfluff:' / '--sqlfluff:') x placement (first / last "
     "line) x line ending (LF / CRLF); non-ASCII text after pure-ASCII prefixes of 0 / 1.1 / 5 / 70 KiB.",
